@@ -34,6 +34,11 @@ type World struct {
 	sumMust map[string]bool
 	sumMay  map[string]bool
 	fgs     map[*ssa.Function]*FG
+	// inlining of freshly extracted private helpers (inline.go)
+	fgis     map[*ssa.Function]*FG
+	inlSites map[*ssa.Function][]*ssa.Call // helper -> its call sites
+	cur      *FG                           // graph whose splices give access paths their context
+	gsub     *FG                           // substitutions of helpers with a single call site (context-free)
 }
 
 var libPkgs = []string{"actor", "remote", "cluster", "ringbuffer", "safemap"}
